@@ -93,3 +93,14 @@ const char *NP2OPNA<FM::OPNB>::emulatorName()
 // template class NP2OPNA<FM::OPN2>;
 template class NP2OPNA<FM::OPNA>;
 template class NP2OPNA<FM::OPNB>;
+
+// fmgen builds its static tables on first use, behind plain flags. Make that first use happen while the
+// program starts, so that chips created later, on any thread, only read them.
+static struct NP2OPNAStaticTables
+{
+    NP2OPNAStaticTables()
+    {
+        NP2OPNA<FM::OPNA> a(OPNChip_OPNA);
+        NP2OPNA<FM::OPNB> b(OPNChip_OPNA);
+    }
+} s_np2OPNAStaticTables;
